@@ -63,6 +63,9 @@ func WorkerMain(id, tier string, shard, nshards int, seed int64, out string) int
 	if budget == 0 {
 		budget = 4 * time.Minute
 	}
+	if ch.HangLimit > 0 {
+		HangLimit = ch.HangLimit
+	}
 	c := NewCtx(id, tier, shard, nshards, seed, budget)
 	write := func() {
 		r := c.Finish()
